@@ -443,7 +443,7 @@ def m_to_string(I, path, args):
     return display(I, args[0], q[0] if q else '')
 
 
-@R.model(r'^<(std::string::)?String as From>::from$', r'^<str as ToOwned>::to_owned$', r'^(std::string::)?String::from$',
+@R.model(r'^<(std::string::)?String as From>::from$', r'^<(str|std::string::String|String) as ToOwned>::to_owned$', r'^(std::string::)?String::from$',
          r'^<(std::string::)?String as (FromStr|std::str::FromStr)>::from_str$', r'^std::str::to_owned$')
 def m_string_from(I, path, args):
     v = deref(args[0])
@@ -853,7 +853,8 @@ def m_string_write(I, path, args):
 
 
 @R.model(r'^char::methods::<impl char>::(is_ascii_digit|is_ascii|is_whitespace|is_alphanumeric|is_ascii_alphanumeric|'
-         r'is_alphabetic|is_ascii_alphabetic|is_ascii_hexdigit|is_digit|to_ascii_lowercase|to_ascii_uppercase|len_utf8|is_ascii_punctuation|is_control|is_uppercase|is_lowercase|is_numeric)$')
+         r'is_alphabetic|is_ascii_alphabetic|is_ascii_hexdigit|is_digit|to_ascii_lowercase|to_ascii_uppercase|len_utf8|is_ascii_punctuation|is_control|is_uppercase|is_lowercase|is_numeric|is_ascii_uppercase|is_ascii_lowercase)$',
+         r'^char::methods::\w+$')
 def m_char(I, path, args):
     meth = strip_generics(path).split('::')[-1]
     ch = deref1(args[0])
@@ -862,6 +863,10 @@ def m_char(I, path, args):
     c = chr(ch)
     if meth == 'is_ascii_digit':
         return c in '0123456789'
+    if meth == 'is_ascii_uppercase':
+        return 'A' <= c <= 'Z'
+    if meth == 'is_ascii_lowercase':
+        return 'a' <= c <= 'z'
     if meth == 'is_ascii':
         return ch < 128
     if meth == 'is_whitespace':
